@@ -593,6 +593,39 @@ func scenarioFamily() *family {
 			run.Violate("hist[scenarios].csidh.PrivateKey.Import", "decode-into-used-object-differs", "%x vs %x", ou, of)
 		}
 	})
+	sc("csidh.DeriveSecret(operands)", func(run *core.Run, imm uint64) {
+		var skA, skB csidh.PrivateKey
+		var pkA, pkB csidh.PublicKey
+		if csidh.GeneratePrivateKey(&skA, core.NewStream(imm)) != nil || csidh.GeneratePrivateKey(&skB, core.NewStream(imm+1)) != nil {
+			panic("HARNESS: csidh.GeneratePrivateKey")
+		}
+		csidh.GeneratePublicKey(&pkA, &skA, core.NewStream(imm+2))
+		csidh.GeneratePublicKey(&pkB, &skB, core.NewStream(imm+3))
+		exp := func(k *csidh.PublicKey) []byte { b := make([]byte, csidh.PublicKeySize); k.Export(b); return b }
+		expS := func(k *csidh.PrivateKey) []byte { b := make([]byte, csidh.PrivateKeySize); k.Export(b); return b }
+		pkB0, skA0 := exp(&pkB), expS(&skA)
+		var ss1, ss2, ss3 [64]byte
+		if !csidh.DeriveSecret(&ss1, &pkB, &skA, core.NewStream(imm+4)) {
+			run.Violate("hist[scenarios].csidh.DeriveSecret", "rejects-honest-key", "")
+			return
+		}
+		if now := exp(&pkB); !bytes.Equal(now, pkB0) {
+			run.Violate("hist[scenarios].csidh.DeriveSecret", "operation-modifies-its-operand", "the peer's public key operand exported as %x… before DeriveSecret and as %x… after it (the shared secret is %x…)", pkB0[:8], now[:8], ss1[:8])
+			return
+		}
+		if now := expS(&skA); !bytes.Equal(now, skA0) {
+			run.Violate("hist[scenarios].csidh.DeriveSecret", "operation-modifies-its-operand", "the private key operand changed")
+			return
+		}
+		// the same call again, and the other party's view
+		if !csidh.DeriveSecret(&ss2, &pkB, &skA, core.NewStream(imm+5)) || ss2 != ss1 {
+			run.Violate("hist[scenarios].csidh.DeriveSecret", "second-call-differs", "DeriveSecret(pkB, skA) returned %x… and then %x…", ss1[:8], ss2[:8])
+			return
+		}
+		if !csidh.DeriveSecret(&ss3, &pkA, &skB, core.NewStream(imm+6)) || ss3 != ss1 {
+			run.Violate("hist[scenarios].csidh.DeriveSecret", "parties-disagree", "A derives %x…, B derives %x…", ss1[:8], ss3[:8])
+		}
+	})
 	sc("mlkem768/kyber768.Unpack(into-used)", func(run *core.Run, imm uint64) {
 		r := core.NewPRNG(imm)
 		pk1, sk1 := mlkem768.NewKeyFromSeed(r.Bytes(mlkem768.KeySeedSize))
